@@ -186,11 +186,16 @@ func (c *Sender) Request(cmdClassifier model.CmdClassifierType, senderAddress, d
 		datagram.Header.AckRequest = &ackRequest
 	}
 
+	// remember the request before it is written: the response may be processed
+	// by another goroutine before the write call returns
+	if len(hash) > 0 {
+		c.addMsgCounterHashToCache(*msgCounter, hash)
+	}
+
 	err := c.sendSpineMessage(datagram)
-	if err == nil {
-		if len(hash) > 0 {
-			c.addMsgCounterHashToCache(*msgCounter, hash)
-		}
+	if err != nil && len(hash) > 0 {
+		// a request that was not sent can not be answered
+		c.ProcessResponseForMsgCounterReference(msgCounter)
 	}
 
 	return msgCounter, err
